@@ -45,6 +45,25 @@ def check(rng, override=None):
             C.push(out, dict(what='returned outputs are not those of the returned unknown paths (stale iterate)', input=dict(inp, outputs=bad), signature=dict(op='consistency')))
         if any(k not in r.toplevel or len(r[k]) != T for k in list(sh) + U):
             C.push(out, dict(what='shock or unknown paths missing from the result', input=inp, signature=dict(op='echo')))
+    # the equations themselves, evaluated by plain numpy on the returned level paths (independent of the package's block evaluation), for the base model and for the
+    # variant with an integer-valued parameter multiplying a path that is then led
+    fint = m.flat_int()
+    ssi = m.solve_flat_int_ss()
+    for label, model, s_, U_, T_, key in (('flat', flat, ss, U, Tg, 'flat'), ('flat_int', fint, ssi, m.UNKNOWNS_INT, m.TARGETS_INT, 'flat_int')):
+        for si, sh in enumerate(shocks):
+            n += 1
+            inp = dict(kind='equations', model=label, shock=si)
+            try:
+                r = model.solve_impulse_nonlinear(s_, U_, T_, sh, options={key: opts})
+            except Exception as ex:
+                C.push(out, dict(what=f'solve_impulse_nonlinear raised {type(ex).__name__}: {ex}', input=inp, signature=dict(op='equations-raise', model=label)))
+                continue
+            ref = M.reference_paths(s_, {**sh, **{u: r[u] for u in U_}}, T)
+            bad = {k: float(np.abs(r[k] - v).max()) for k, v in ref.items() if k in r.toplevel and k not in T_ and not np.abs(r[k] - v).max() < 1e-9}
+            offt = {t: float(np.abs(ref[t]).max()) for t in T_ if not np.abs(ref[t]).max() < 10 * tol}
+            if bad or offt:
+                C.push(out, dict(what='the returned transition path does not satisfy the model\'s equations at every date (plain numpy evaluation of the equations on the returned paths)', input=inp,
+                                 observed=dict(outputs=bad, targets=offt), signature=dict(op='equations', model=label)))
     # zero shock
     r0 = flat.solve_impulse_nonlinear(ss, U, Tg, {'z': np.zeros(T)}, options=fo)
     n += 1
